@@ -1,6 +1,8 @@
 package main
 
 import (
+	"fmt"
+	"go/types"
 	"golang.org/x/tools/go/ssa"
 )
 
@@ -11,7 +13,7 @@ import (
 // writer reports an error; its error result is unconstrained.
 func (g *Gen) sinkInvoke(st *State, call *ssa.CallCommon, args []Val, result ssa.Value) bool {
 	recvT := call.Value.Type().String()
-	if recvT != "io.ByteWriter" && recvT != "io.Writer" && recvT != "io.StringWriter" {
+	if recvT != "io.ByteWriter" && recvT != "io.Writer" && recvT != "io.StringWriter" && recvT != "hash.Hash" {
 		return false
 	}
 	r, ok := bufRef(args[0])
@@ -34,6 +36,22 @@ func (g *Gen) sinkInvoke(st *State, call *ssa.CallCommon, args []Val, result ssa
 		g.assume(st, "(=> (= "+res.Tup[1].T+" 0) (= "+res.Tup[0].T+" "+args[1].Len+"))")
 		g.foreignErrs(st, res)
 		g.setResult(result, res)
+	case "Sum":
+		if recvT != "hash.Hash" {
+			return false
+		}
+		// digest of the record: a fresh slice of unconstrained bytes, at least as long as its argument
+		pre := args[1]
+		nr := g.freshRef(st)
+		_ = g.hsGet(st)
+		ln := g.newSym("sumlen", "Int")
+		pl := pre.Len
+		if pl == "" {
+			pl = "0"
+		}
+		g.assume(st, fmt.Sprintf("(and (<= %s %s) (<= %s (+ %s 64)) (=> (= %s 0) (>= %s 16)))", pl, ln, ln, pl, pl, ln))
+		g.noteElemRange(st, nr, types.Typ[types.Byte])
+		g.setResult(result, Val{Ref: nr, Len: ln, Off: "0", Kind: "slice", Ty: rt.At(0).Type()})
 	default:
 		return false
 	}
